@@ -256,7 +256,7 @@ impl Harness {
             ("C06", &["C08"]),
             ("C13", &WIRE_ORACLE_PROPS),
             ("C14", &["C01", "C02", "C03"]),
-            ("C15", &["C01"]),
+            ("C15", &["C01", "C16"]),
             ("C18", &["C01", "C02", "C03"]),
             ("C19", &["C02", "C03", "C05"]),
             ("C07", &["C02"]),
